@@ -1,0 +1,449 @@
+//go:build verif
+
+// Contracts for parser.go and parse_helpers.go, read by /verif/vcgen (comment-only; adds no code).
+//
+// Every method of *Parser whose name starts with parse/tryParse/lookahead gets the `parser` schema
+// below unless it has an explicit contract (which then says `inherit parser` and adds or overrides).
+
+package memefish
+
+// ---------------------------------------------------------------------------------------------
+// Vocabulary
+//
+// TokOK: the current token lies inside the buffer and ends where the lexer stands.
+// @ spec TokOK(l) = 0 <= l.Token.Pos && l.Token.Pos <= l.Token.End && l.Token.End == l.pos && (l.Token.Kind == "<eof>" ==> l.Token.Pos == len(l.Buffer)) && (l.Token.Kind == ">>" ==> l.Token.End == l.Token.Pos + 2)
+// a token that is neither <eof> nor <bad> nor the zero token is not empty (this is what makes the parser advance)
+// @ spec nonEmptyTok(l) = l.Token.Kind == "<eof>" || l.Token.Kind == "" || l.Token.Pos < l.Token.End || (l.Token.Kind == "<bad>" && l.Token.Pos == len(l.Buffer))
+// @ spec ParserInv0(p) = p != nil && p.Lexer != nil && LexInv(p.Lexer) && TokOK(p.Lexer) && nonEmptyTok(p.Lexer)
+// after the first token has been read the current token is never the zero token
+// @ spec ParserInv(p) = ParserInv0(p) && p.Lexer.Token.Kind != ""
+// the parser's lexer object is the same, or one allocated during the call (Clone + restore), on the same File
+// @ spec sameInput(p, l0) = (p.Lexer == l0 || fresh(p.Lexer)) && p.Lexer.File == l0.File
+
+// ---------------------------------------------------------------------------------------------
+// Schemas
+
+// Productions that legitimately may consume no token (optional clauses dressed as parse*), or return
+// one of their arguments: the parser schema without the progress / fresh-result clauses.
+// @ schema parsernp memefish\.\(\*Parser\)\.(parseAllOrDistinct|parseIfExists|parseIfNotExists|parsePipeOperators|parsePropertyGraphLabelAndPropertiesList|parseSelectResults|parsePrivilege|parseArg|parseSequenceParams)
+// @   props C03 C09
+// @   requires ParserInv(p)
+// @   ensures ParserInv(p)
+// @   ensures (p.Lexer == old(p.Lexer) || fresh(p.Lexer)) && p.Lexer.File == old(p.Lexer.File)
+// @   ensures p.Lexer.Token.Pos >= old(p.Lexer.Token.Pos)
+// @   ensures[C09] errs: len(p.errors) >= old(len(p.errors))
+// @   ensures[C04] nonnil: notNil(result)
+// @   panics when true
+// @   modifies p.Lexer, p.errors, cur(p.Lexer).pos, cur(p.Lexer).Token.*, cur(p.Lexer).lastTokenKind, cur(p.Lexer).dotIdent, p.Lexer.File.lines
+// @   loop * invariant ParserInv(p) && (p.Lexer == old(p.Lexer) || fresh(p.Lexer)) && p.Lexer.File == old(p.Lexer.File) && p.Lexer.Token.Pos >= old(p.Lexer.Token.Pos) && len(p.errors) >= old(len(p.errors))
+// @   loop * decreases len(p.Lexer.Buffer) - p.Lexer.Token.Pos
+
+// @ schema parser memefish\.\(\*Parser\)\.parse\w+ except memefish\.\(\*Parser\)\.(parseTableNameSuffix|parsePathTableExprSuffix|parseUnnestSuffix)
+// @   props C03 C09
+// @   requires ParserInv(p)
+// @   ensures ParserInv(p)
+// @   ensures (p.Lexer == old(p.Lexer) || fresh(p.Lexer)) && p.Lexer.File == old(p.Lexer.File)
+// @   ensures p.Lexer.Token.Pos >= old(p.Lexer.Token.Pos)
+// @   ensures[C09] errs: len(p.errors) >= old(len(p.errors))
+// @   ensures[C04] nonnil: notNil(result)
+// @   ensures[C03] progress: len(p.errors) == old(len(p.errors)) ==> p.Lexer.Token.Pos > old(p.Lexer.Token.Pos)
+// @   ensures[C18,C05] freshres: freshRef(result)
+// @   panics when true
+// @   modifies p.Lexer, p.errors, cur(p.Lexer).pos, cur(p.Lexer).Token.*, cur(p.Lexer).lastTokenKind, cur(p.Lexer).dotIdent, p.Lexer.File.lines
+// @   loop * invariant ParserInv(p) && (p.Lexer == old(p.Lexer) || fresh(p.Lexer)) && p.Lexer.File == old(p.Lexer.File) && p.Lexer.Token.Pos >= old(p.Lexer.Token.Pos) && len(p.errors) >= old(len(p.errors))
+// @   loop * decreases len(p.Lexer.Buffer) - p.Lexer.Token.Pos
+
+// @ schema parseropt memefish\.\(\*Parser\)\.tryParse\w+
+// @   props C03 C09
+// @   requires ParserInv(p)
+// @   ensures ParserInv(p)
+// @   ensures (p.Lexer == old(p.Lexer) || fresh(p.Lexer)) && p.Lexer.File == old(p.Lexer.File)
+// @   ensures p.Lexer.Token.Pos >= old(p.Lexer.Token.Pos)
+// @   ensures[C09] errs: len(p.errors) >= old(len(p.errors))
+// @   panics when true
+// @   modifies p.Lexer, p.errors, cur(p.Lexer).pos, cur(p.Lexer).Token.*, cur(p.Lexer).lastTokenKind, cur(p.Lexer).dotIdent, p.Lexer.File.lines
+// @   loop * invariant ParserInv(p) && (p.Lexer == old(p.Lexer) || fresh(p.Lexer)) && p.Lexer.File == old(p.Lexer.File) && p.Lexer.Token.Pos >= old(p.Lexer.Token.Pos) && len(p.errors) >= old(len(p.errors))
+// @   loop * decreases len(p.Lexer.Buffer) - p.Lexer.Token.Pos
+
+// Lookahead: the parser state is restored exactly (the lexer object may be a fresh copy); no error
+// is recorded or swallowed (a lexical error propagates as a panic).
+// @ schema lookahead memefish\.\(\*Parser\)\.lookahead\w+
+// @   props C03 C09
+// @   requires ParserInv(p)
+// @   ensures ParserInv(p)
+// @   ensures (p.Lexer == old(p.Lexer) || fresh(p.Lexer)) && p.Lexer.File == old(p.Lexer.File)
+// @   ensures[C09] restored: p.Lexer.pos == old(p.Lexer.pos) && p.Lexer.Token == old(p.Lexer.Token) && p.Lexer.lastTokenKind == old(p.Lexer.lastTokenKind) && p.Lexer.dotIdent == old(p.Lexer.dotIdent)
+// @   ensures[C09] errs: p.errors == old(p.errors)
+// @   panics when true
+// @   modifies p.Lexer, cur(p.Lexer).pos, cur(p.Lexer).Token.*, cur(p.Lexer).lastTokenKind, cur(p.Lexer).dotIdent, p.Lexer.File.lines
+// @   loop * invariant ParserInv(p) && p.Lexer == old(p.Lexer) && p.errors == old(p.errors)
+// @   loop * decreases 2 * (len(p.Lexer.Buffer) - p.Lexer.Token.Pos) + ite(p.Lexer.Token.Kind == "<eof>", 0, 1)
+
+// ---------------------------------------------------------------------------------------------
+// Tokens
+
+// @ func token.(*Token).Clone
+// @   props C03 C10
+// @   requires t != nil
+// @   ensures result != nil && fresh(result) && result.Kind == t.Kind && result.Pos == t.Pos && result.End == t.End && result.Raw == t.Raw && result.AsString == t.AsString && result.Space == t.Space && result.Base == t.Base && result.Comments == t.Comments
+// @   modifies nothing
+
+// @ func token.(*Token).IsIdent
+// @   props C03
+// @   requires t != nil
+// @   ensures result ==> t.Kind == "<ident>"
+// @   modifies nothing
+
+// @ func token.(*Token).IsKeywordLike
+// @   props C03
+// @   requires t != nil
+// @   ensures result ==> t.Kind == "<ident>" && len(t.Raw) == len(s)
+// @   modifies nothing
+
+// ---------------------------------------------------------------------------------------------
+// Parser primitives
+
+// @ func memefish.(*Parser).nextToken
+// @   props C03 C09
+// @   requires ParserInv0(p)
+// @   ensures ParserInv(p) && p.Lexer == old(p.Lexer)
+// @   ensures p.Lexer.Token.Pos >= old(p.Lexer.Token.End) && p.Lexer.Token.Kind != "<bad>" && p.Lexer.Token.Kind != "" && p.Lexer.File == old(p.Lexer.File)
+// @   ensures p.Lexer.Token.Kind != "<eof>" ==> p.Lexer.pos > old(p.Lexer.pos)
+// @   ensures p.errors == old(p.errors)
+// @   panics when true
+// @   modifies cur(p.Lexer).pos, cur(p.Lexer).Token.*, cur(p.Lexer).lastTokenKind, cur(p.Lexer).dotIdent, p.Lexer.File.lines
+
+// @ func memefish.(*Parser).nextTokenOrBad
+// @   props C03 C09
+// @   requires ParserInv0(p)
+// @   ensures ParserInv(p) && (p.Lexer == old(p.Lexer) || fresh(p.Lexer)) && p.Lexer.File == old(p.Lexer.File)
+// @   ensures p.Lexer.Token.Pos >= old(p.Lexer.Token.End)
+// @   ensures[C09] errs: len(p.errors) >= old(len(p.errors))
+// @   ensures[C09] recorded: p.Lexer.Token.Kind == "<bad>" ==> len(p.errors) > old(len(p.errors))
+// @   ensures p.Lexer.Token.Kind != "<eof>" ==> p.Lexer.pos > old(p.Lexer.pos)
+// @   panics never
+// @   modifies p.Lexer, p.errors, cur(p.Lexer).pos, cur(p.Lexer).Token.*, cur(p.Lexer).lastTokenKind, cur(p.Lexer).dotIdent, p.Lexer.File.lines
+
+// @ func memefish.(*Parser).errorfAtToken
+// @   props C03 C09
+// @   requires p != nil && p.Lexer != nil && FileInv(p.Lexer) && tok != nil
+// @   requires[C03,C09,C20] errpos: 0 <= tok.Pos && tok.Pos <= tok.End && tok.End <= len(p.Lexer.Buffer)
+// @   ensures FileInv(p.Lexer) && result != nil && fresh(result) && result.Position != nil && result.Position.Pos == tok.Pos && result.Position.End == tok.End
+// @   modifies p.Lexer.File.lines
+
+// @ func memefish.(*Parser).panicfAtToken
+// @   props C03 C09
+// @   requires p != nil && p.Lexer != nil && FileInv(p.Lexer) && tok != nil
+// @   requires[C03,C09,C20] errpos: 0 <= tok.Pos && tok.Pos <= tok.End && tok.End <= len(p.Lexer.Buffer)
+// @   panics always
+// @   modifies p.Lexer.File.lines
+
+// @ func memefish.(*Parser).expect
+// @   props C03 C09
+// @   requires ParserInv(p)
+// @   ensures ParserInv(p) && p.Lexer == old(p.Lexer)
+// @   ensures result != nil && fresh(result) && result.Kind == old(p.Lexer.Token.Kind) && old(p.Lexer.Token.Kind) == kind && result.Pos == old(p.Lexer.Token.Pos) && result.End == old(p.Lexer.Token.End) && result.Raw == old(p.Lexer.Token.Raw) && result.AsString == old(p.Lexer.Token.AsString)
+// @   ensures p.Lexer.Token.Pos >= result.End && p.Lexer.Token.Kind != "<bad>" && result.Pos <= result.End && p.Lexer.File == old(p.Lexer.File)
+// @   ensures[C03] progress: kind != "<eof>" && kind != "<bad>" && kind != "" ==> result.Pos < result.End && p.Lexer.Token.Pos > old(p.Lexer.Token.Pos)
+// @   ensures p.errors == old(p.errors)
+// @   panics when true
+// @   modifies cur(p.Lexer).pos, cur(p.Lexer).Token.*, cur(p.Lexer).lastTokenKind, cur(p.Lexer).dotIdent, p.Lexer.File.lines
+
+// @ func memefish.(*Parser).expectIdent
+// @   props C03 C09
+// @   requires ParserInv(p)
+// @   ensures ParserInv(p) && p.Lexer == old(p.Lexer)
+// @   ensures result != nil && fresh(result) && result.Kind == "<ident>" && result.Pos == old(p.Lexer.Token.Pos) && result.End == old(p.Lexer.Token.End) && result.Pos < result.End
+// @   ensures p.Lexer.Token.Pos >= result.End && p.Lexer.Token.Pos > old(p.Lexer.Token.Pos) && p.Lexer.File == old(p.Lexer.File)
+// @   ensures p.errors == old(p.errors)
+// @   panics when true
+// @   modifies cur(p.Lexer).pos, cur(p.Lexer).Token.*, cur(p.Lexer).lastTokenKind, cur(p.Lexer).dotIdent, p.Lexer.File.lines
+
+// @ func memefish.(*Parser).expectKeywordLike
+// @   props C03 C09
+// @   requires ParserInv(p)
+// @   ensures ParserInv(p) && p.Lexer == old(p.Lexer)
+// @   ensures result != nil && fresh(result) && result.Kind == "<ident>" && result.Pos == old(p.Lexer.Token.Pos) && result.End == old(p.Lexer.Token.End) && result.Pos < result.End
+// @   ensures p.Lexer.Token.Pos >= result.End && p.Lexer.Token.Pos > old(p.Lexer.Token.Pos) && p.Lexer.File == old(p.Lexer.File)
+// @   ensures p.errors == old(p.errors)
+// @   panics when true
+// @   modifies cur(p.Lexer).pos, cur(p.Lexer).Token.*, cur(p.Lexer).lastTokenKind, cur(p.Lexer).dotIdent, p.Lexer.File.lines
+
+// @ func token.QuoteSQLIdent
+// @   trusted
+// @   modifies nothing
+
+// ---------------------------------------------------------------------------------------------
+// Error handlers (recovery). r is the recovered panic value: always a non-nil *Error here.
+
+// @ spec isErr(r) = typeIs(r, "*memefish.Error") && ref(r) != 0
+// the lexer clone taken at the entry of a recovering function
+// @ spec CloneOK(l) = l != nil && LexInv(l) && TokOK(l) && nonEmptyTok(l) && l.Token.Kind != ""
+
+// @ func memefish.(*Parser).handleError
+// @   props C03 C09
+// @   requires p != nil && l != nil && isErr(r)
+// @   ensures p.Lexer == l
+// @   ensures[C09] recorded: len(p.errors) == old(len(p.errors)) + 1
+// @   panics never
+// @   modifies p.errors, p.Lexer
+
+// @ schema handler memefish\.\(\*Parser\)\.handleParse\w+Error
+// @   props C03 C09 C10
+// @   requires p != nil && isErr(r) && CloneOK(l)
+// @   ensures ParserInv(p) && p.Lexer == l && l.File == old(l.File) && freshRef(result)
+// @   ensures p.Lexer.Token.Pos >= old(l.Token.Pos)
+// @   ensures[C09] recorded: len(p.errors) == old(len(p.errors)) + 1
+// @   ensures[C04] nonnil: notNil(result)
+// @   panics never
+// @   modifies p.errors, p.Lexer, l.pos, l.Token.*, l.lastTokenKind, l.dotIdent, l.File.lines
+
+// @ func memefish.(*Parser).handleParseStatementError
+// @   inherit handler
+// @   loop 0 invariant p.Lexer == l && ParserInv(p) && l.File == old(l.File) && l.Token.Pos >= old(l.Token.Pos) && len(p.errors) == old(len(p.errors)) + 1
+// @   loop 0 decreases 2 * (len(l.Buffer) - l.pos) + ite(l.Token.Kind == "<eof>", 0, 1)
+
+// @ func memefish.(*Parser).handleParseQueryExprError
+// @   inherit handler
+// @   loop 0 invariant p.Lexer == l && ParserInv(p) && l.File == old(l.File) && l.Token.Pos >= old(l.Token.Pos) && len(p.errors) == old(len(p.errors)) + 1
+// @   loop 0 decreases 2 * (len(l.Buffer) - l.pos) + ite(l.Token.Kind == "<eof>", 0, 1)
+
+// @ func memefish.(*Parser).handleParseExprError
+// @   inherit handler
+// @   loop 0 invariant p.Lexer == l && ParserInv(p) && l.File == old(l.File) && l.Token.Pos >= old(l.Token.Pos) && len(p.errors) == old(len(p.errors)) + 1
+// @   loop 0 decreases 2 * (len(l.Buffer) - l.pos) + ite(l.Token.Kind == "<eof>", 0, 1)
+
+// @ func memefish.(*Parser).handleParseTypeError
+// @   inherit handler
+// @   loop 0 invariant p.Lexer == l && ParserInv(p) && l.File == old(l.File) && l.Token.Pos >= old(l.Token.Pos) && len(p.errors) == old(len(p.errors)) + 1
+// @   loop 0 decreases 2 * (len(l.Buffer) - l.pos) + ite(l.Token.Kind == "<eof>", 0, 1)
+
+// ---------------------------------------------------------------------------------------------
+// Recovery points: they catch every *Error panic of their callees and return a Bad* node instead.
+
+// @ func memefish.(*Parser).parseStatement
+// @   inherit parser
+// @   panics never
+// @ func memefish.(*Parser).parseStatementInternal
+// @   inherit parser
+// @   panics never
+// @ func memefish.(*Parser).parseQueryStatement
+// @   inherit parser
+// @   panics never
+// @ func memefish.(*Parser).parseQueryExpr
+// @   inherit parser
+// @   panics never
+// @   loop 0 invariant notNil(query) && freshRef(query) && (len(p.errors) == old(len(p.errors)) ==> p.Lexer.Token.Pos > old(p.Lexer.Token.Pos))
+// @ func memefish.(*Parser).parseSimpleQueryExpr
+// @   inherit parser
+// @   panics never
+// @ func memefish.(*Parser).parseExpr
+// @   inherit parser
+// @   panics never
+// @ func memefish.(*Parser).parseType
+// @   inherit parser
+// @   panics never
+// @ func memefish.(*Parser).parseDDL
+// @   inherit parser
+// @   panics never
+// @ func memefish.(*Parser).parseDML
+// @   inherit parser
+// @   panics never
+// @ func memefish.(*Parser).parseDMLInternal
+// @   inherit parser
+// @   panics never
+
+// ---------------------------------------------------------------------------------------------
+// List helpers (generic; doParse is a method value of p that satisfies the parser schema)
+
+// @ func memefish.parseCommaSeparatedList
+// @   props C03 C09
+// @   fparam doParse parseropt
+// @   requires ParserInv(p)
+// @   ensures ParserInv(p) && (p.Lexer == old(p.Lexer) || fresh(p.Lexer)) && p.Lexer.File == old(p.Lexer.File)
+// @   ensures p.Lexer.Token.Pos >= old(p.Lexer.Token.Pos)
+// @   ensures[C09] errs: len(p.errors) >= old(len(p.errors))
+// @   ensures len(result) >= 1
+// @   panics when true
+// @   modifies p.Lexer, p.errors, cur(p.Lexer).pos, cur(p.Lexer).Token.*, cur(p.Lexer).lastTokenKind, cur(p.Lexer).dotIdent, p.Lexer.File.lines
+// @   loop 0 invariant ParserInv(p) && (p.Lexer == old(p.Lexer) || fresh(p.Lexer)) && p.Lexer.File == old(p.Lexer.File) && p.Lexer.Token.Pos >= old(p.Lexer.Token.Pos) && len(p.errors) >= old(len(p.errors)) && len(nodes) >= 1
+// @   loop 0 decreases len(p.Lexer.Buffer) - p.Lexer.Token.Pos
+
+// @ func memefish.parseStatements
+// @   props C03 C09
+// @   fparam doParse recovering
+// @   requires ParserInv(p)
+// @   ensures ParserInv(p) && (p.Lexer == old(p.Lexer) || fresh(p.Lexer)) && p.Lexer.File == old(p.Lexer.File)
+// @   ensures[C09] errs: len(p.errors) >= old(len(p.errors))
+// @   panics never
+// @   modifies p.Lexer, p.errors, cur(p.Lexer).pos, cur(p.Lexer).Token.*, cur(p.Lexer).lastTokenKind, cur(p.Lexer).dotIdent, p.Lexer.File.lines
+// @   loop 0 invariant ParserInv(p) && (p.Lexer == old(p.Lexer) || fresh(p.Lexer)) && p.Lexer.File == old(p.Lexer.File) && len(p.errors) >= old(len(p.errors))
+// @   loop 0 decreases 2 * (len(p.Lexer.Buffer) - p.Lexer.Token.Pos) + ite(p.Lexer.Token.Kind == ";", 0, 1)
+
+// a recovering production: the parser schema, and no panic escapes
+// @ schema recovering memefish\.\(\*Parser\)\.NOTHING
+// @   props C03 C09
+// @   requires ParserInv(p)
+// @   ensures ParserInv(p)
+// @   ensures (p.Lexer == old(p.Lexer) || fresh(p.Lexer)) && p.Lexer.File == old(p.Lexer.File)
+// @   ensures p.Lexer.Token.Pos >= old(p.Lexer.Token.Pos)
+// @   ensures[C09] errs: len(p.errors) >= old(len(p.errors))
+// @   ensures[C04] nonnil: notNil(result)
+// @   panics never
+// @   modifies p.Lexer, p.errors, cur(p.Lexer).pos, cur(p.Lexer).Token.*, cur(p.Lexer).lastTokenKind, cur(p.Lexer).dotIdent, p.Lexer.File.lines
+
+// ---------------------------------------------------------------------------------------------
+// Public entry points (C03: never panic, typed error; C09: nil error iff clean and fully consumed)
+
+// @ spec FreshParser(p) = p != nil && p.Lexer != nil && p.Lexer.File != nil && p.Lexer.pos == 0 && p.Lexer.Token.End == 0 && isNil(p.Lexer.File.lines) && len(p.errors) == 0 && p.Lexer.Token.Pos == 0 && p.Lexer.Token.Kind == ""
+
+// @ schema entry memefish\.\(\*Parser\)\.Parse\w+
+// @   props C03 C09
+// @   requires FreshParser(p)
+// @   ensures[C03] typed: result1 == nil || (typeIs(result1, "memefish.MultiError") && len(p.errors) >= 1)
+// @   ensures[C09] clean: result1 == nil ==> len(p.errors) == 0 && p.Lexer.Token.Kind == "<eof>" && p.Lexer.Token.Pos == len(p.Lexer.Buffer)
+// @   ensures[C09] dirty: len(p.errors) > 0 || p.Lexer.Token.Kind != "<eof>" ==> result1 != nil
+// @   panics never
+// @   modifies p.Lexer, p.errors, cur(p.Lexer).pos, cur(p.Lexer).Token.*, cur(p.Lexer).lastTokenKind, cur(p.Lexer).dotIdent, p.Lexer.File.lines
+
+// ---------------------------------------------------------------------------------------------
+// Productions with contracts of their own
+
+// parseIdent records no error (it is used inside lookahead)
+// @ func memefish.(*Parser).parseIdent
+// @   inherit parser
+// @   ensures p.errors == old(p.errors) && p.Lexer == old(p.Lexer)
+// @   ensures[C03] strict: p.Lexer.Token.Pos > old(p.Lexer.Token.Pos)
+// @   modifies cur(p.Lexer).pos, cur(p.Lexer).Token.*, cur(p.Lexer).lastTokenKind, cur(p.Lexer).dotIdent, p.Lexer.File.lines
+
+// Left-associative binary levels: `expr` is the operand tree built so far.
+// @ spec chainInv(p, expr, nerr0, pos0) = notNil(expr) && (len(p.errors) == nerr0 ==> p.Lexer.Token.Pos > pos0)
+// @ func memefish.(*Parser).parseOr
+// @   inherit parser
+// @   loop 0 invariant chainInv(p, expr, old(len(p.errors)), old(p.Lexer.Token.Pos)) && freshRef(expr)
+// @ func memefish.(*Parser).parseAnd
+// @   inherit parser
+// @   loop 0 invariant chainInv(p, expr, old(len(p.errors)), old(p.Lexer.Token.Pos)) && freshRef(expr)
+// @ func memefish.(*Parser).parseBitOr
+// @   inherit parser
+// @   loop 0 invariant chainInv(p, expr, old(len(p.errors)), old(p.Lexer.Token.Pos)) && freshRef(expr)
+// @ func memefish.(*Parser).parseBitXor
+// @   inherit parser
+// @   loop 0 invariant chainInv(p, expr, old(len(p.errors)), old(p.Lexer.Token.Pos)) && freshRef(expr)
+// @ func memefish.(*Parser).parseBitAnd
+// @   inherit parser
+// @   loop 0 invariant chainInv(p, expr, old(len(p.errors)), old(p.Lexer.Token.Pos)) && freshRef(expr)
+// @ func memefish.(*Parser).parseBitShift
+// @   inherit parser
+// @   loop 0 invariant chainInv(p, expr, old(len(p.errors)), old(p.Lexer.Token.Pos)) && freshRef(expr)
+// @ func memefish.(*Parser).parseAddSub
+// @   inherit parser
+// @   loop 0 invariant chainInv(p, expr, old(len(p.errors)), old(p.Lexer.Token.Pos)) && freshRef(expr)
+// @ func memefish.(*Parser).parseMulDiv
+// @   inherit parser
+// @   loop 0 invariant chainInv(p, expr, old(len(p.errors)), old(p.Lexer.Token.Pos)) && freshRef(expr)
+// @ func memefish.(*Parser).parseSelector
+// @   inherit parser
+// @   loop 0 invariant chainInv(p, expr, old(len(p.errors)), old(p.Lexer.Token.Pos)) && freshRef(expr)
+// @ func memefish.(*Parser).parseIdentOrPath
+// @   inherit parser
+// @   loop 0 invariant len(p.errors) == old(len(p.errors)) ==> p.Lexer.Token.Pos > old(p.Lexer.Token.Pos)
+
+// @ func memefish.(*Parser).lookaheadSimpleType
+// @   inherit lookahead
+// @   loop 0 invariant 0 - 1 <= rangeindex && rangeindex < len(simpleTypes)
+// @   loop 0 decreases len(simpleTypes) - rangeindex
+
+// Pos()/End() of nodes: verified against the documentation by the catalog engine (C19); here they
+// are pure functions of the node.
+// @ schema astpos ast\.\(\*\w+\)\.(Pos|End)
+// @   trusted
+// @   requires recv != nil
+// @   modifies nothing
+
+// @ func strings.Join
+// @   trusted
+// @   modifies nothing
+// @ func strings.ToUpper
+// @   trusted
+// @   modifies nothing
+
+// Productions that always consume at least one token (they start with expect): needed as loop variants.
+// @ func memefish.(*Parser).parsePipeOperator
+// @   inherit parser
+// @   ensures[C03] strict: p.Lexer.Token.Pos > old(p.Lexer.Token.Pos)
+// @ func memefish.(*Parser).parseCaseWhen
+// @   inherit parser
+// @   ensures[C03] strict: p.Lexer.Token.Pos > old(p.Lexer.Token.Pos)
+// @ func memefish.(*Parser).parseBracedNewConstructorField
+// @   inherit parser
+// @   ensures[C03] strict: p.Lexer.Token.Pos > old(p.Lexer.Token.Pos)
+// @ func memefish.(*Parser).parsePropertyGraphElementLabel
+// @   inherit parser
+// @   ensures[C03] strict: p.Lexer.Token.Pos > old(p.Lexer.Token.Pos)
+// @ func memefish.(*Parser).parseSequenceParam
+// @   inherit parser
+// @   ensures[C03] strict: p.Lexer.Token.Pos > old(p.Lexer.Token.Pos)
+// @ func memefish.(*Parser).tryParseSequenceParam
+// @   inherit parseropt
+// @   ensures[C03] strict: notNil(result) && result != nil ==> p.Lexer.Token.Pos > old(p.Lexer.Token.Pos)
+// @   ensures[C04] typed: result == nil || notNil(result)
+
+// @ func memefish.(*Parser).parseSimpleType
+// @   inherit parser
+// @   loop 0 invariant 0 - 1 <= rangeindex && rangeindex < len(simpleTypes) && len(p.errors) == old(len(p.errors)) && p.Lexer.Token.Pos > old(p.Lexer.Token.Pos)
+// @   loop 0 decreases len(simpleTypes) - rangeindex
+// @ func memefish.(*Parser).parseScalarSchemaType
+// @   inherit parser
+// @   loop 0 invariant 0 - 1 <= rangeindex && rangeindex < len(scalarSchemaTypes) && len(p.errors) == old(len(p.errors)) && p.Lexer.Token.Pos > old(p.Lexer.Token.Pos)
+// @   loop 0 decreases len(scalarSchemaTypes) - rangeindex
+// @   loop 1 invariant 0 - 1 <= rangeindex && rangeindex < len(sizedSchemaTypes) && len(p.errors) == old(len(p.errors)) && p.Lexer.Token.Pos > old(p.Lexer.Token.Pos)
+// @   loop 1 decreases len(sizedSchemaTypes) - rangeindex
+
+// Productions that finish a node handed in by their caller (the node was built by the caller just
+// before the call; they return that same node).
+// @ func memefish.(*Parser).parseTableExprSuffix
+// @   props C03 C09
+// @   requires ParserInv(p) && notNil(join)
+// @   requires[C03] known: typeIs(join, "*ast.Unnest") || typeIs(join, "*ast.TableName") || typeIs(join, "*ast.PathTableExpr") || typeIs(join, "*ast.SubQueryTableExpr") || typeIs(join, "*ast.ParenTableExpr")
+// @   ensures ParserInv(p)
+// @   ensures (p.Lexer == old(p.Lexer) || fresh(p.Lexer)) && p.Lexer.File == old(p.Lexer.File)
+// @   ensures p.Lexer.Token.Pos >= old(p.Lexer.Token.Pos)
+// @   ensures[C09] errs: len(p.errors) >= old(len(p.errors))
+// @   ensures result == join
+// @   panics when true
+// @   modifies p.Lexer, p.errors, cur(p.Lexer).pos, cur(p.Lexer).Token.*, cur(p.Lexer).lastTokenKind, cur(p.Lexer).dotIdent, p.Lexer.File.lines, node(join).Sample
+
+// @ func memefish.(*Parser).parseQueryExprSuffix
+// @   props C03 C09
+// @   requires ParserInv(p) && notNil(e)
+// @   ensures ParserInv(p)
+// @   ensures (p.Lexer == old(p.Lexer) || fresh(p.Lexer)) && p.Lexer.File == old(p.Lexer.File)
+// @   ensures p.Lexer.Token.Pos >= old(p.Lexer.Token.Pos)
+// @   ensures[C09] errs: len(p.errors) >= old(len(p.errors))
+// @   ensures[C04] nonnil: notNil(result)
+// @   ensures result == e || freshRef(result)
+// @   panics when true
+// @   modifies p.Lexer, p.errors, cur(p.Lexer).pos, cur(p.Lexer).Token.*, cur(p.Lexer).lastTokenKind, cur(p.Lexer).dotIdent, p.Lexer.File.lines
+
+// @ func memefish.(*Parser).parseTableExpr
+// @   inherit parser
+// @   loop 0 invariant chainInv(p, join, old(len(p.errors)), old(p.Lexer.Token.Pos)) && freshRef(join)
+
+// @ func memefish.(*Parser).tryParseFrom
+// @   inherit parseropt
+// @   ensures old(p.Lexer.Token.Kind) == "FROM" ==> notNil(result) && p.Lexer.Token.Pos > old(p.Lexer.Token.Pos)
+// @   ensures freshRef(result)
+
+// Suffix productions called after their first tokens were consumed by the caller: no progress of their own.
+// @ schema parsersuffix memefish\.\(\*Parser\)\.(parseTableNameSuffix|parsePathTableExprSuffix|parseUnnestSuffix)
+// @   props C03 C09
+// @   requires ParserInv(p)
+// @   ensures ParserInv(p)
+// @   ensures (p.Lexer == old(p.Lexer) || fresh(p.Lexer)) && p.Lexer.File == old(p.Lexer.File)
+// @   ensures p.Lexer.Token.Pos >= old(p.Lexer.Token.Pos)
+// @   ensures[C09] errs: len(p.errors) >= old(len(p.errors))
+// @   ensures[C04] nonnil: notNil(result)
+// @   ensures[C18,C05] freshres: freshRef(result)
+// @   panics when true
+// @   modifies p.Lexer, p.errors, cur(p.Lexer).pos, cur(p.Lexer).Token.*, cur(p.Lexer).lastTokenKind, cur(p.Lexer).dotIdent, p.Lexer.File.lines
